@@ -149,13 +149,13 @@ func TestC03OracleSelfCheck(t *testing.T) {
 type nullDB struct{}
 type nullBatch struct{}
 
-func (nullDB) NewBatch() database.Batch   { return nullBatch{} }
-func (nullBatch) Put(_, _ []byte) error   { return nil }
-func (nullBatch) Del(_ []byte) error      { return nil }
-func (nullBatch) Flush() error            { return nil }
-func (nullBatch) Close() error            { return nil }
-func (nullBatch) ValueSize() int          { return 0 }
-func (nullBatch) Reset()                  {}
+func (nullDB) NewBatch() database.Batch { return nullBatch{} }
+func (nullBatch) Put(_, _ []byte) error { return nil }
+func (nullBatch) Del(_ []byte) error    { return nil }
+func (nullBatch) Flush() error          { return nil }
+func (nullBatch) Close() error          { return nil }
+func (nullBatch) ValueSize() int        { return 0 }
+func (nullBatch) Reset()                {}
 
 type snap struct {
 	tr      *inmemory.InMemoryTrie
